@@ -33,7 +33,7 @@ use sciparse::{
             ScmpParameterProblem, ScmpTracerouteReply,
         },
         types::{ScmpDestinationUnreachableCode, ScmpParameterProblemCode},
-        view::{ScmpMessageExt, ScmpMessageView},
+        view::ScmpMessageView,
     },
 };
 use tracing::info_span;
@@ -417,7 +417,10 @@ fn maybe_create_scmp_reply(
         .context("can't classify SCION packet for SCMP response")?;
 
     match classify {
-        ClassifiedPacketView::Scmp(scmp_view) if scmp_view.scmp().message().is_error() => {
+        // Message types below 128 are error messages, whether known or not
+        ClassifiedPacketView::Scmp(scmp_view)
+            if u8::from(scmp_view.scmp().message_type()) < 128 =>
+        {
             // Don't reply to SCMP Error Messages
             return Ok(None);
         }
